@@ -102,6 +102,32 @@ func specsC02(tier string) []seqmc.Spec {
 		cfg.ops = append(cfg.ops, del("t", "x", 2), del("t", "*", 4))
 		out = append(out, mkSpec(cfg, 40))
 	}
+	// LARGE bundles: five updates in one notification (and three updates plus a
+	// delete), in both member orders, on five leaves that single updates move
+	// independently: any run of rejected members - however long - leaves the
+	// members after it (and the deletes) to be judged on their own
+	for _, ev := range []bool{true, false} {
+		cfg := &specCfg{name: fmt.Sprintf("bundles of five updates / three updates and a delete, eventDriven=%v ts=1..3 (closure)", ev), targets: []string{"t"}, eventDriven: ev, fixedClock: 2,
+			oracles: oset("errclass", "state", "latest")}
+		leaves := []string{"p1", "p2", "p3", "p4", "q/r"}
+		for _, ts := range []int64{1, 2, 3} {
+			var fwd, rev []updSpec
+			for i, l := range leaves {
+				fwd = append(fwd, updSpec{ps(l), 1})
+				rev = append(rev, updSpec{ps(leaves[len(leaves)-1-i]), 1})
+			}
+			cfg.ops = append(cfg.ops,
+				op{kind: "multi", target: "t", ts: ts, ups: fwd},
+				op{kind: "multi", target: "t", ts: ts, ups: rev},
+				op{kind: "multi", target: "t", ts: ts, ups: fwd[:3], dels: []pathSpec{ps("q")}},
+				op{kind: "multi", target: "t", ts: ts, ups: fwd[:4]})
+		}
+		for _, l := range []string{"p1", "p4", "q/r"} {
+			cfg.ops = append(cfg.ops, upd("t", l, 2, 1), upd("t", l, 3, 2))
+		}
+		cfg.ops = append(cfg.ops, del("t", "*", 4), del("t", "p4", 3))
+		out = append(out, mkSpec(cfg, 40))
+	}
 	// structured kinds and NaN on one leaf: never equal for the suppression
 	// test, yet a re-sent identical notification is stale and a different one
 	// at the same timestamp replaces
